@@ -354,11 +354,40 @@ def write_rows(path, order, n, rows):
 
 
 def listing(root):
+    """every file and directory below root"""
     out = []
     for dp, dn, fn in os.walk(root):
-        for x in fn:
+        for x in fn + dn:
             out.append(os.path.relpath(os.path.join(dp, x), root))
     return sorted(out)
+
+
+class scratch_env:
+    """For the duration of a library call the system temporary directory and the working directory are
+    fresh directories below `root`, so that whatever the call leaves behind anywhere shows in listing(root)."""
+
+    def __init__(self, root):
+        self.root = root
+
+    def __enter__(self):
+        import tempfile
+        self.saved = (tempfile.tempdir, os.environ.get("TMPDIR"), os.getcwd())
+        self.tmp = tempfile.mkdtemp(prefix="systmp-", dir=self.root)
+        self.cwd = tempfile.mkdtemp(prefix="cwd-", dir=self.root)
+        tempfile.tempdir = self.tmp
+        os.environ["TMPDIR"] = self.tmp
+        os.chdir(self.cwd)
+        return self
+
+    def __exit__(self, *exc):
+        import tempfile
+        tempfile.tempdir = self.saved[0]
+        if self.saved[1] is None:
+            os.environ.pop("TMPDIR", None)
+        else:
+            os.environ["TMPDIR"] = self.saved[1]
+        os.chdir(self.saved[2])
+        return False
 
 
 def all_shapes(case):
@@ -423,6 +452,10 @@ def materialise(case, d, permute=False):
         e = {"tensor": b["tensor"], "rank": b["rank"], "type": b["type"]}
         if case["model"] == "buffet":
             e["evict-on"] = b["evict"]
+            if b.get("evict_alias"):
+                al = sorted(i for t in case["tensors"] for lr, i in t["ranks"] if lr == b["evict"] and i != lr)
+                if al:
+                    e["evict-on"] = al[0]
         bindings.append(e)
         for acc in ("read", "write"):
             if (b["trace"], acc) in paths:
@@ -434,13 +467,14 @@ def run_lib(case, root, sub, capacity, permute=False):
     d = os.path.join(root, sub)
     os.makedirs(d)
     bindings, formats, trace_fns, loop_ranks = materialise(case, d, permute)
-    before = listing(root)
     fn = Traffic.buffetTraffic if case["model"] == "buffet" else Traffic.cacheTraffic
-    if loop_ranks is None:
-        traffic, overflows = fn(bindings, formats, trace_fns, capacity, case["line_sz"])
-    else:
-        traffic, overflows = fn(bindings, formats, trace_fns, capacity, case["line_sz"], loop_ranks=loop_ranks)
-    after = listing(root)
+    with scratch_env(root):
+        before = listing(root)
+        if loop_ranks is None:
+            traffic, overflows = fn(bindings, formats, trace_fns, capacity, case["line_sz"])
+        else:
+            traffic, overflows = fn(bindings, formats, trace_fns, capacity, case["line_sz"], loop_ranks=loop_ranks)
+        after = listing(root)
     if before != after:
         raise Violation("temp-files", f"directory listing changed by the call: before={before} after={after}")
     return traffic, overflows
@@ -629,6 +663,11 @@ def _check_traffic(case, rec):
         rec.cls("staging-access", any(a["staging"] for a in seq))
         rec.cls("line-reused", reused)
         rec.cls("loop-ranks-renamed", any(r[0] != r[1] for t in case["tensors"] for r in t["ranks"]))
+        rec.cls("evict-on-spelled-with-alias", any(
+            b.get("evict_alias") and any(lr == b.get("evict") and i != lr for t in case["tensors"] for lr, i in t["ranks"])
+            for b in case["bindings"]))
+        rec.cls("multi-digit-stamp-or-position", any(
+            any(x >= 10 for r in (tr[acc] or []) for x in r) for tr in case["traces"] for acc in ("read", "write")))
         rec.cls("shared-trace-file", len({b["trace"] for b in binds}) < len(binds))
         rec.cls("pinned-overcommit", info["pinned_over"])
         rec.cls("tie-ambiguous-decision", info["ambiguous"])
@@ -654,6 +693,8 @@ def traffic_cases(draw, model=None):
     nl = draw(st.sampled_from([1, 2, 2, 2, 3, 3]))
     order = LOOP[:nl]
     nt = draw(st.sampled_from([1, 1, 2]))
+    # (multi-digit stamps and positions: rows are compared as numbers, not as text)
+    wide = draw(st.integers(0, 3)) == 0
     tensors = []
     cands = []
     for ti in range(nt):
@@ -662,7 +703,7 @@ def traffic_cases(draw, model=None):
         lr = [r for j, r in enumerate(order) if (bits >> j) & 1]
         alias = draw(st.integers(0, 4)) == 0
         ranks = [[r, r + name.lower() if alias else r] for r in lr]
-        shape = [draw(st.integers(1, 5)) for _ in lr]
+        shape = [draw(st.integers(1, 12 if wide else 5)) for _ in lr]
         fmt = []
         for r in ranks:
             layout = draw(st.sampled_from(["contiguous", "contiguous", "contiguous", "interleaved"]))
@@ -705,7 +746,7 @@ def traffic_cases(draw, model=None):
         if same and draw(st.integers(0, 3)) == 0:
             tix = same[0]
         else:
-            radix = {1: [9], 2: [3, 4], 3: [2, 3, 3]}[n]
+            radix = ({1: [13], 2: [3, 12], 3: [2, 3, 11]} if wide else {1: [9], 2: [3, 4], 3: [2, 3, 3]})[n]
             lo = draw(st.sampled_from([0, 2, 4, 4, 6]))
             comp = st.tuples(*[st.integers(0, r - 1) for r in radix])
             stamps = sorted(draw(st.sets(comp, min_size=min(lo, 8), max_size=lo + 6)))
@@ -734,6 +775,8 @@ def traffic_cases(draw, model=None):
         b = {"tensor": name, "rank": rid, "type": ty, "trace": tix}
         if model == "buffet":
             b["evict"] = draw(st.sampled_from(["root"] + order[:n - 1] * 2))
+            # evict-on may be spelled with a tensor-side rank id that loop_ranks maps to that loop rank
+            b["evict_alias"] = draw(st.integers(0, 1))
         bindings.append(b)
     lines = draw(st.sampled_from([0, 1, 1, 2, 2, 3, 4, 5, None]))
     rem = draw(st.integers(0, line_sz - 1))
@@ -972,9 +1015,11 @@ def check_filter(case, rec):
         write_rows(ff, LOOP, m, case["filter"])
         keep_in = open(fi).read()
         keep_fil = open(ff).read()
-        Traffic.filterTrace(fi, ff, fo)
-        if listing(d) != sorted(os.path.basename(x) for x in (fi, ff, fo)):
-            raise Violation("temp-files", f"filterTrace left {listing(d)}")
+        with scratch_env(d) as env:
+            Traffic.filterTrace(fi, ff, fo)
+            left = [x for x in listing(d) if x not in (os.path.basename(env.tmp), os.path.basename(env.cwd))]
+        if left != sorted(os.path.basename(x) for x in (fi, ff, fo)):
+            raise Violation("temp-files", f"filterTrace left {left}")
         if open(fi).read() != keep_in or open(ff).read() != keep_fil:
             raise Violation("filter-modified-input", "filterTrace changed one of its input files")
         present = {tuple(r[m:m + n]) for r in case["filter"]}
@@ -1021,9 +1066,11 @@ def check_combine(case, rec):
                 write_rows(p, LOOP, n, case[acc])
                 args[acc + "_fn"] = p
                 names.append(os.path.basename(p))
-        Traffic._combineTraces(**args)
-        if listing(d) != sorted(names):
-            raise Violation("temp-files", f"_combineTraces left {listing(d)}")
+        with scratch_env(d) as env:
+            Traffic._combineTraces(**args)
+            left = [x for x in listing(d) if x not in (os.path.basename(env.tmp), os.path.basename(env.cwd))]
+        if left != sorted(names):
+            raise Violation("temp-files", f"_combineTraces left {left}")
         # stable merge: repeatedly take the write head only if its stamp is strictly earlier
         rd = [(tuple(r[:n]), r, False) for r in case["read"] or []]
         wr = [(tuple(r[:n]), r, True) for r in case["write"] or []]
